@@ -626,17 +626,6 @@ func genWitnessSteps(d *dg.Design, m *dg.Method, pv, rv *dg.Val, mk func(desc, s
 		mk("valid", "", "request", obj("m_len", mp("a", "b")), rv)
 		mk("witness:map-maxlen:size3", ".m_len", "request", obj("m_len", mp("a", "b", "c")), rv)
 		mk("witness:map-minlen:size0", ".m_len", "request", obj("m_len", mp()), rv)
-	case "w_mapro":
-		iv := func(i int64) *dg.Val { return &dg.Val{K: "int", I: i} }
-		one := func(elem *dg.Val) *dg.Val {
-			return &dg.Val{K: "map", Keys: []*dg.Val{sv("k")}, Elems: []*dg.Val{elem}}
-		}
-		mk("valid", "", "request", obj("map_ro", one(obj("a", sv("x"), "b", iv(1)))), rv)
-		mkRaw("raw:delete-key", ".map_ro{val0}.a", obj("map_ro", one(obj("b", iv(1)))), "POST", "/wit/mapro", `{"map_ro":{"k":{"b":1}}}`)
-		mkRaw("witness:map-of-maps-missing-required", ".mapmap_ro{val0}{val0}.a", obj("mapmap_ro", one(one(obj("b", iv(1))))), "POST", "/wit/mapro", `{"mapmap_ro":{"k":{"k":{"b":1}}}}`)
-		mkRaw("witness:map-of-arrays-missing-required", ".maparr_ro{val0}[0].a", obj("maparr_ro", one(&dg.Val{K: "array", Elems: []*dg.Val{obj("b", iv(1))}})), "POST", "/wit/mapro", `{"maparr_ro":{"k":[{"b":1}]}}`)
-		mkRaw("raw:delete-key", ".arrmap_ro[0]{val0}.a", obj("arrmap_ro", &dg.Val{K: "array", Elems: []*dg.Val{one(obj("b", iv(1)))}}), "POST", "/wit/mapro", `{"arrmap_ro":[{"k":{"b":1}}]}`)
-		mkRaw("raw:delete-key", ".arr_ro[0].a", obj("arr_ro", &dg.Val{K: "array", Elems: []*dg.Val{obj("b", iv(1))}}), "POST", "/wit/mapro", `{"arr_ro":[{"b":1}]}`)
 	case "w_cookie":
 		uv := func(u uint64) *dg.Val { return &dg.Val{K: "uint", U: u} }
 		mk("valid", "", "request", obj("items", uv(3), "note", sv("abc")), rv)
@@ -756,9 +745,6 @@ func checkC04(res *vh.Result, si *stepInfo, ob *rt.Obs, in map[string]any) {
 				sig := "violating-request-no-response:" + firstKw(si.Expected)
 				if si.DecodeFail {
 					sig = "undecodable-request-no-response"
-				}
-				if len(si.Expected) == 1 && si.Expected[0].Kw == "required" && mapNestedCollectionRequiredOnly(si.Design, si.M.Payload, si.Expected[0].Path) {
-					sig = "map-nested-collection-required-only-unvalidated"
 				}
 				failSig(res, sig, "the server answered nothing (it crashed) on a request that violates "+violString(si.Expected), in)
 				return
